@@ -202,7 +202,8 @@ func mustJSON(v interface{}) string {
 // the case and the tape values consumed.
 func runCase(p Property, ph *PhaseCfg, t *Tape, st *Stats) (*Violation, Case, []uint64) {
 	c := p.Gen(t, ph)
-	rec := append([]uint64(nil), t.Rec...)
 	v := p.Exec(c, st)
+	// Exec may draw too (the schedule of a scheduled world comes from the same tape)
+	rec := append([]uint64(nil), t.Rec...)
 	return v, c, rec
 }
